@@ -360,6 +360,8 @@ pub fn run(tier: Tier, shard: Shard, rep: &mut Report) {
          inputs of 20, 24, 33 and 64 entries (5 rank patterns x 5 flag patterns) at every capacity 0..=n+1; \
          entries whose access bit is live (n <= 4, thorough 6: every pair of answers to the first and to later looks, both input orders, \
          every capacity): exactly n - capacity evictions, nothing twice, classical for some reported flags; \
+         ten inputs of 1500 and 4000 64-byte entries planned in a forked child whose allocator refuses every request above 24 n bytes \
+         (a returned plan is still the classical one; an abort is not a plan); \
          plus enumerated large families (thorough). Non-trivial = n > capacity \
          and (a tie or an accessed entry is present). All cases are distinct by construction.",
         max_n, lazy_n
@@ -487,6 +489,7 @@ pub fn run(tier: Tier, shard: Shard, rep: &mut Report) {
         rep.sample(case_json(&[(1, true), (1, false), (0, true), (2, false)], 2));
     }
     live_bits_section(tier, shard, rep);
+    refused_allocation_section(shard, rep);
 }
 
 /// An entry whose access bit is live (set or cleared by readers while the planner runs): the first look answers
@@ -604,7 +607,79 @@ fn live_bits_section(tier: Tier, shard: Shard, rep: &mut Report) {
     }
 }
 
+/// A 64-byte entry: whatever the planner reserves per entry is then clearly larger than what sorting needs per entry.
+struct Big {
+    id: u32,
+    rank: u64,
+    accessed: bool,
+    _pad: [u8; 40],
+}
+
+impl Entry for Big {
+    type Rank = u64;
+    fn rank(&self) -> u64 {
+        self.rank
+    }
+    fn accessed(&self) -> bool {
+        self.accessed
+    }
+}
+
+/// The planner under memory pressure: every single allocation request above `24 * n` bytes is refused (more than the
+/// sort needs, less than a buffer of `capacity` 64-byte entries).  It may abort (then there is no plan), but a plan it
+/// returns is the classical one.  Run in a forked child, because an infallible allocation that is refused aborts.
+fn refused_allocation_section(shard: Shard, rep: &mut Report) {
+    let mut no = 0u64;
+    for n in [1500usize, 4000] {
+        for (fp, capacity) in [(0usize, n - 3), (1, n - 3), (2, n - 1), (1, n / 2), (2, n - 40)] {
+            no += 1;
+            if !shard.mine(no) {
+                continue;
+            }
+            let flags: Vec<bool> = (0..n)
+                .map(|i| match fp {
+                    0 => i < 2,
+                    1 => i % 2 == 0,
+                    _ => i < 30,
+                })
+                .collect();
+            let entries: Vec<Big> = (0..n).map(|i| Big { id: i as u32, rank: i as u64, accessed: flags[i], _pad: [0; 40] }).collect();
+            let order: Vec<(u32, bool)> = (0..n).map(|i| (i as u32, flags[i])).collect();
+            let want = classical(&order, capacity);
+            rep.evaluations += 1;
+            rep.states += 1;
+            rep.transitions += 1;
+            rep.traces += 1;
+            rep.count("refused_allocation_cases", 1);
+            let pid = unsafe { libc::fork() };
+            if pid == 0 {
+                crate::ALLOC_LIMIT.with(|c| c.set(24 * n));
+                let plan = Update::new(entries, capacity);
+                let evict: Vec<u32> = plan.to_evict.iter().map(|e| e.id).collect();
+                let moved: Vec<u32> = plan.to_move_back.iter().map(|e| e.id).collect();
+                let same = evict == want.0 && moved == want.1;
+                unsafe { libc::_exit(if same { 0 } else { 7 }) };
+            }
+            let mut status: libc::c_int = 0;
+            unsafe { libc::waitpid(pid, &mut status, 0) };
+            if libc::WIFEXITED(status) && libc::WEXITSTATUS(status) == 7 {
+                rep.violation(
+                    "planner:not-classical-under-memory-pressure",
+                    format!("n={} capacity={} flag pattern {}: with allocation requests above {} bytes refused, the planner returned a plan that is not the classical Second Chance result", n, capacity, fp, 24 * n),
+                    json!({"refused_allocation": true}),
+                );
+            } else if !(libc::WIFEXITED(status) && libc::WEXITSTATUS(status) == 0) {
+                rep.count("refused_allocation_aborted", 1);
+            }
+        }
+    }
+}
+
 pub fn replay(case: &Value, rep: &mut Report) {
+    if case.get("refused_allocation").is_some() {
+        refused_allocation_section(Shard { index: 0, count: 1 }, rep);
+        return;
+    }
     if case.get("live_bits").is_some() {
         live_bits_section(Tier::Thorough, Shard { index: 0, count: 1 }, rep);
         return;
